@@ -44,7 +44,9 @@ BreakEnd ==
   /\ out' = (IF off < Wd.e THEN Append(out, [a |-> off, e |-> Wd.e, b |-> Wd.b, pen |-> Wd.pen, w |-> width]) ELSE out)
   /\ pc' = "done" /\ UNCHANGED <<s, lim, splitter, inpen, i, off, width, st, pieces>>
 Next == (\E c \in Alphabet : Type(c)) \/ (\E l \in Limits, sp \in Splitters, ip \in {0, 1} : Begin(l, sp, ip)) \/ BreakStep \/ BreakEnd
-Spec == Init /\ [][Next]_vars
+Spec == Init /\ [][Next]_vars /\ WF_vars(BreakStep \/ BreakEnd)
+\* once a call has begun it returns
+Terminates == (pc # "type") ~> (pc = "done")
 
 ToLogged(str, wd) ==
   [a |-> wd.a, n |-> wd.e - wd.a, wa |-> wd.e, wn |-> wd.b - wd.e, t |-> SubSeq(str, wd.a, wd.e - 1),
